@@ -1219,3 +1219,138 @@ def shrink_ops(case, still_fails, max_tries=400):
     c = dict(case)
     c["ops"] = ops
     return c
+
+
+# =========================================================================== cases shared by C06 / C07 / C15
+def gen_case(desc):
+    """descriptor {"gen": {...}} -> full case (data, alpha, ops); a case that already has `ops` is returned as is"""
+    if "ops" in desc:
+        return desc
+    import random
+
+    g = desc["gen"]
+    rnd = random.Random(g["seed"])
+    n = g["n"]
+    bits = rnd.choice([1, 2, 3])
+    ds_vals = [[[Fraction(rnd.randint(1, 1 << bits), 1 << bits) for _ in range(g["G"])] for _ in range(g["S"])] for _ in range(n)]
+    if g.get("shared"):  # mutations with identical grids
+        for j in range(1, n):
+            if rnd.random() < 0.4:
+                ds_vals[j] = ds_vals[rnd.randrange(j)]
+    op = Fraction(rnd.choice([0, 1, 1, 5]), 100) if g["outliers"] else Fraction(0)
+    ds = DataSet(ds_vals, op)
+    if g["stream"] == "grammar":
+        ops = gen_history(rnd, n, g["max_ops"], outliers=g["outliers"])
+    else:
+        ops = gen_weird(rnd, n, g["max_ops"])
+    alpha = Fraction(rnd.choice([1, 1, 2, 3, 5]), rnd.choice([1, 2, 4]))
+    return {"kind": "hist", "stream": g["stream"], "data": ds.to_json(), "alpha": fr(alpha), "ops": ops}
+
+
+def hist_descs(tier, rnd, n_grammar, n_weird, long_every=0):
+    out = []
+    for i in range(n_grammar):
+        long = tier == "thorough" and long_every and i % long_every == 0
+        out.append({"kind": "hist", "gen": {
+            "seed": rnd.randrange(1 << 40), "stream": "grammar", "n": rnd.randint(1, 7 if not long else 6),
+            "S": rnd.randint(1, 2), "G": rnd.randint(2, 5), "outliers": rnd.random() < 0.7, "shared": i % 4 == 0,
+            "max_ops": rnd.randint(150, 400) if long else rnd.randint(5, 60)}})
+    for i in range(n_weird):
+        out.append({"kind": "hist", "gen": {
+            "seed": rnd.randrange(1 << 40), "stream": "weird", "n": rnd.randint(2, 6), "S": rnd.randint(1, 2),
+            "G": rnd.randint(2, 4), "outliers": True, "shared": False, "max_ops": rnd.randint(6, 45)}})
+    return out
+
+
+def check_hist(ctx, desc, want):
+    case = gen_case(desc)
+    summ = run_case(ctx, case, want)
+    ctx.stat("stream_" + case.get("stream", "grammar"))
+    ctx.stat("handles_%02d+" % (10 * (summ["max_handles"] // 10)))
+    ctx.stat("len_%03d+" % (20 * (len(case["ops"]) // 20)))
+    kinds = {o["o"] for o in case["ops"]}
+    nontrivial = summ["max_handles"] >= 2 and bool(kinds & {"rmSub", "addSub", "rmDp", "relabel"})
+    ctx.done(desc, nontrivial=nontrivial,
+             sample={"stream": case.get("stream"), "n_ops": len(case["ops"]), "first_ops": case["ops"][:6]})
+    return summ
+
+
+class _Quiet:
+    """context without a model, for oracle-only re-runs (search, shrinking)"""
+
+    def __init__(self):
+        self.lean = None
+        self.oracle_failures = []
+        self.corr_failures = []
+        self.evaluations = 0
+
+    def ask(self, req):
+        raise RuntimeError("no model")
+
+    def stat(self, *a, **k):
+        pass
+
+    def done(self, *a, **k):
+        self.evaluations += 1
+
+    def corr_fail(self, case, what, detail=None):
+        self.corr_failures.append({"case": case, "what": what, "detail": detail})
+
+    def oracle_fail(self, case, what, site, signature=None, detail=None):
+        self.oracle_failures.append({"case": case, "what": what, "site": site, "signature": signature, "detail": detail})
+
+
+def shrink_failure(failure, want):
+    """remove ops while an oracle failure with the same signature persists"""
+    case = failure.get("case") or {}
+    if "ops" not in case:
+        return failure
+    sig = failure.get("signature")
+    last = {}
+
+    def still(c):
+        q = _Quiet()
+        try:
+            run_case(q, dict(c, no_model=True), want)
+        except Exception:
+            return False
+        for f in q.oracle_failures:
+            if f["signature"] == sig:
+                last["f"] = f
+                return True
+        return False
+
+    small = shrink_ops(case, still)
+    if still(small) and "f" in last:
+        f = dict(last["f"])
+        f["case"] = {k: v for k, v in small.items() if k != "no_model"}
+        return f
+    return failure
+
+
+def search_hist(ctx, failed_cases, rnd, deadline, want, fresh=400):
+    import time
+
+    descs = list(failed_cases) + hist_descs("quick", rnd, fresh, 0)
+    for d in descs:
+        if time.time() > deadline:
+            break
+        if d.get("kind", "hist") != "hist":
+            continue
+        try:
+            case = dict(gen_case(d), no_model=True)
+        except Exception:
+            continue
+        if case.get("stream", "grammar") != "grammar":
+            continue
+        q = _Quiet()
+        try:
+            run_case(q, case, want)
+        except Exception:
+            continue
+        ctx.evaluations += 1
+        for f in q.oracle_failures:
+            f["case"] = {k: v for k, v in f["case"].items() if k != "no_model"}
+            ctx.oracle_failures.append(f)
+        if q.oracle_failures:
+            return
